@@ -338,6 +338,8 @@ impl Language for Swift {
             }
 
             let case_type: String = match f.type_override(SupportedLanguage::Swift) {
+                // the override names the type; an `Option<T>` field stays optional
+                Some(type_override) if f.ty.is_optional() => format!("{type_override}?"),
                 Some(type_override) => type_override.to_owned(),
                 None => self
                     .format_type(&f.ty, rs.generic_types.as_slice())
@@ -373,6 +375,8 @@ impl Language for Swift {
         let mut init_params: Vec<String> = Vec::new();
         for f in &rs.fields {
             let swift_ty = match f.type_override(SupportedLanguage::Swift) {
+                // the override names the type; an `Option<T>` field stays optional
+                Some(type_override) if f.ty.is_optional() => format!("{type_override}?"),
                 Some(type_override) => type_override.to_owned(),
                 None => self
                     .format_type(&f.ty, rs.generic_types.as_slice())
